@@ -12,9 +12,10 @@ import Batteries.Lean.Except
 namespace Demeter
 open Demeter.Gmx Demeter.Gmx2
 
-/-- v1: every rejected operation is a no-op on (glp, reward, wallet, action log) -/
-theorem C04_gmx_v1_reject_noop (cx : NumCtx) (env : GmxV1.Env) (s s' : GmxV1.State) (op : GmxV1.Op) (e : GmxV1.Err)
-    (h : GmxV1.step cx env s op = (.error e, s')) : s' = s :=
+/-- v1: every rejected operation is a no-op on (glp, reward, wallet, action log) — either setting of
+    `broker.allow_negative_balance` -/
+theorem C04_gmx_v1_reject_noop (cx : NumCtx) (env : GmxV1.Env) (s s' : GmxV1.State) (op : GmxV1.Op) (e : GmxV1.Err) (allowNeg : Bool)
+    (h : GmxV1.step cx env s op allowNeg = (.error e, s')) : s' = s :=
   step_reject h
 
 /-- v1, along a sequence: the state after any list of operations equals the state after the accepted ones alone -/
@@ -37,10 +38,10 @@ section
 variable {α : Type} [Add α] [Sub α] [Mul α] [Div α] [Neg α] [LT α] [LE α] [OfNat α 0] [DecidableLT α] [DecidableLE α]
 
 /-- v2 deposit: every rejection cause (negative amount, pricing error, first or second wallet debit refused, token
-    missing from the wallet) leaves (amount, wallet, action log) as they were -/
+    missing from the wallet) leaves (amount, wallet, action log) as they were — either setting of `allow_negative_balance` -/
 theorem C04_gmx_v2_deposit_reject_noop (o : GmxV2.Ops α) (cx : NumCtx) (cfg : GmxV2.Config α) (ps : GmxV2.Pool α) (lk sk : String)
-    (s s' : GmxV2.State α) (la sa : α) (e : GmxV2.Err)
-    (h : GmxV2.deposit o cx cfg ps lk sk s la sa = (.error e, s')) : s' = s :=
+    (s s' : GmxV2.State α) (la sa : α) (e : GmxV2.Err) (allowNeg : Bool)
+    (h : GmxV2.deposit o cx cfg ps lk sk s la sa allowNeg = (.error e, s')) : s' = s :=
   deposit_reject h
 
 /-- v2 withdraw: negative amount, more than held, pricing error -/
@@ -48,7 +49,28 @@ theorem C04_gmx_v2_withdraw_reject_noop (o : GmxV2.Ops α) (cx : NumCtx) (cfg : 
     (s s' : GmxV2.State α) (amt : Option α) (e : GmxV2.Err)
     (h : GmxV2.withdraw o cx cfg ps lk sk s amt = (.error e, s')) : s' = s :=
   withdraw_reject h
+
+/-- v2: an amount that is not a finite number (NaN compares false with everything, so neither `< 0` nor `> holding` would
+    stop it; ±∞) is an invalid argument — rejected with `DemeterError` before anything is priced or changed, whatever the
+    number type, pool, wallet mode and state -/
+theorem C04_gmx_v2_nonfinite_deposit_rejected (o : GmxV2.Ops α) (cx : NumCtx) (cfg : GmxV2.Config α) (ps : GmxV2.Pool α) (lk sk : String)
+    (s : GmxV2.State α) (la sa : α) (allowNeg : Bool) (h : o.isFinite la = false ∨ o.isFinite sa = false) :
+    GmxV2.deposit o cx cfg ps lk sk s la sa allowNeg = (.error .demeter, s) := by
+  unfold GmxV2.deposit
+  have : (!(o.isFinite la && o.isFinite sa)) = true := by
+    rcases h with h | h <;> simp [h]
+  rw [if_pos this]
+
+theorem C04_gmx_v2_nonfinite_withdraw_rejected (o : GmxV2.Ops α) (cx : NumCtx) (cfg : GmxV2.Config α) (ps : GmxV2.Pool α) (lk sk : String)
+    (s : GmxV2.State α) (amt : Option α) (h : o.isFinite (amt.getD s.amount) = false) :
+    GmxV2.withdraw o cx cfg ps lk sk s amt = (.error .demeter, s) := by
+  unfold GmxV2.withdraw
+  simp only [h, Bool.not_false, if_true]
 end
+
+/-- non-vacuity for the IEEE instantiation the driver runs: NaN and +∞ are not finite, 1.5 is (kernel-evaluated `Float` is
+    opaque, so this is stated through the instantiation's own field and checked at run time by the correspondence runs) -/
+example : GmxV2.floatOps.isFinite = Float.isFinite := rfl
 
 /-- the restore step of v2 `deposit` really is needed and really restores: after a successful first debit the wallet
     differs, and writing the remembered balance back gives the original wallet -/
